@@ -48,9 +48,9 @@ import (
 	"go/ast"
 	"go/build"
 	"go/importer"
-	"os"
 	"go/token"
 	"go/types"
+	"os"
 	"path/filepath"
 	"sort"
 	"strings"
@@ -115,16 +115,16 @@ func (f *fakeImporter) Import(path string) (*types.Package, error) {
 }
 
 type ecGraph struct {
-	r         *Repo
-	info      *types.Info
-	pkg       *types.Package
-	nodeOf    map[*types.Func]string // declared function (origin) -> qualName
-	nodes     map[string]bool
-	edges     map[string]map[string]bool
-	methods   map[string][]*types.Func // method name -> methods of named root types (non-interface)
-	addrTaken map[sigKey]map[string]bool // signature -> functions
-	dynCalls  map[string]map[sigKey]bool // function -> signatures of the function values it calls
-	callsPR   map[string]bool            // functions that contain a call to a page reader
+	r                     *Repo
+	info                  *types.Info
+	pkg                   *types.Package
+	nodeOf                map[*types.Func]string // declared function (origin) -> qualName
+	nodes                 map[string]bool
+	edges                 map[string]map[string]bool
+	methods               map[string][]*types.Func   // method name -> methods of named root types (non-interface)
+	addrTaken             map[sigKey]map[string]bool // signature -> functions
+	dynCalls              map[string]map[sigKey]bool // function -> signatures of the function values it calls
+	callsPR               map[string]bool            // functions that contain a call to a page reader
 	nIface, nDyn, nByName int
 }
 
